@@ -211,7 +211,8 @@ def check_inflight(ctx):
                 i1 = R.arg_expr(b, b.nodes[mf[0]], 1)
                 ctx.check(i0 is not None and i0.key() == i1.key(), inst, "PROVENANCE", b.path, "the buffer flagged is the buffer whose address is submitted", b.where(mf[0]))
         # the buffer set outlives every wait / completion pass of its chunk
-        bufs = [l for l in range(len(b.locals)) if b.local_name(l) == "buffers"]
+        from rules import roles
+        bufs = roles.locals_with_role(b, "buffers")
         drops = [n.id for n in b.nodes if (n.kind == "drop" and not n.ev["pl"]["p"] and n.ev["pl"]["l"] in bufs) or
                  (n.kind == "call" and call_matches(n.ev, "mem::drop") and any(R.op_local(a) in bufs for a in n.ev["args"]))]
         sw = ctx.sites(b, R.call("IoUring::submit_and_wait"), inst, exact=1)
